@@ -4,7 +4,7 @@ func init() {
 	reg("C06", propCfg{Pkg: "props", Quick: tierCfg{12, 1500}, Thorough: tierCfg{14, 25000}})
 	reg("C14", propCfg{Pkg: "props", Quick: tierCfg{12, 40}, Thorough: tierCfg{14, 800}})
 	reg("C13", propCfg{Pkg: "props", Quick: tierCfg{12, 1200}, Thorough: tierCfg{14, 12000}})
-	reg("C07", propCfg{Pkg: "props", Quick: tierCfg{12, 120}, Thorough: tierCfg{14, 4000}})
+	reg("C07", propCfg{Pkg: "props", Quick: tierCfg{12, 120}, Thorough: tierCfg{14, 900}})
 	reg("C20", propCfg{Pkg: "props", Race: true, Quick: tierCfg{12, 25}, Thorough: tierCfg{14, 1200}})
 	reg("C17", propCfg{Pkg: "props", Quick: tierCfg{12, 60}, Thorough: tierCfg{14, 500}})
 	reg("C05", propCfg{Pkg: "props", Quick: tierCfg{12, 14}, Thorough: tierCfg{14, 100}})
